@@ -105,20 +105,24 @@ fn translate_fn(idx: &Index, fi: &FnInfo) -> R<Translated> {
         text.push_str(a);
         text.push('\n');
     }
-    text.push_str(&format!(
-        "/-- {}:{}{} [body {}] -/\n{}def {} {}{}{} : {} :=\n{}\n",
-        fi.file,
-        fi.line,
-        if fi.from_trait_default { " (trait default)" } else { "" },
-        hash,
-        if cx.deps.contains(&fi.key) { "partial " } else { "" },
-        fi.lean_name,
-        BINDERS,
-        sf,
-        binders,
-        ret_s,
-        indent(&body.val())
-    ));
+    let doc = format!("/-- {}:{}{} [body {}] -/\n", fi.file, fi.line, if fi.from_trait_default { " (trait default)" } else { "" }, hash);
+    if cx.deps.contains(&fi.key) {
+        // self-recursive: structural recursion on a fuel argument (Rust recursion depth here is tiny)
+        let call = format!("{} (α := α)", fi.lean_name);
+        let rec_call = format!("{}.rec (α := α) fuel", fi.lean_name);
+        let body_rec = body.val().replace(&call, &rec_call);
+        let arg_names: String = cx.sig_params.iter().map(|p| format!(" {}", p.0)).collect();
+        text.push_str(&format!(
+            "{}def {}.rec {}{} (fuel : Nat){} : {} :=\n  match fuel with\n  | 0 => panicV\n  | fuel + 1 =>\n{}\n\n",
+            doc, fi.lean_name, BINDERS, sf, binders, ret_s, reindent(&body_rec, 4)
+        ));
+        text.push_str(&format!(
+            "def {} {}{}{} : {} :=\n  {}.rec (α := α) recFuel{}\n",
+            fi.lean_name, BINDERS, sf, binders, ret_s, fi.lean_name, arg_names
+        ));
+    } else {
+        text.push_str(&format!("{}def {} {}{}{} : {} :=\n{}\n", doc, fi.lean_name, BINDERS, sf, binders, ret_s, indent(&body.val())));
+    }
     Ok(Translated {
         key: fi.key.clone(),
         text,
